@@ -216,6 +216,21 @@ func MetaUnits(thorough bool) []Unit {
 					return
 				}
 			}
+			// the same body under a declared length that fits another width combination
+			// (5 = four 1-byte numbers, 9 = four 2-byte, 17 = four 4-byte)
+			if body, ok := vbBody(body[:0], ws, VBTuples[0]); ok {
+				for _, abs := range []int64{5, 9, 17} {
+					if int(abs) == 1+len(body) {
+						continue
+					}
+					c := ch(0, body)
+					c.LenAbs = abs
+					buf = BuildMeta(buf, 1, 1, []Chunk{c})
+					if !withTailsAndTruncs(yield, buf, false) {
+						return
+					}
+				}
+			}
 			// non-finite values exist only in the 4-byte form
 			for pos := 0; pos < 4; pos++ {
 				if ws[pos] != 4 {
@@ -240,6 +255,22 @@ func MetaUnits(thorough bool) []Unit {
 		for _, t := range VBTuples {
 			body, _ = vbBody(body[:0], [4]int{4, 4, 4, 4}, t)
 			buf = BuildMeta(buf, 1, 2, []Chunk{ch(0, body), ch(1, defPal())})
+			if !withTailsAndTruncs(yield, buf, false) {
+				return
+			}
+		}
+	}})
+
+	// two chunks whose declared lengths are wrong by +k and -k: the errors cancel over the section
+	us = append(us, Unit{Name: "meta/lengths-cancel", Each: func(yield func([]byte) bool) {
+		var buf []byte
+		for k := int64(-3); k <= 3; k++ {
+			if k == 0 {
+				continue
+			}
+			a, b := ch(0, defVB()), ch(1, defPal())
+			a.LenDelta, b.LenDelta = k, -k
+			buf = BuildMeta(buf, 1, 2, []Chunk{a, b})
 			if !withTailsAndTruncs(yield, buf, false) {
 				return
 			}
